@@ -49,3 +49,36 @@ def daily_prepare(electric):
         check("C05.daily_prepare.zero_blanked", implies(And(zero, seen_m.mult > 0), cell_kind(seen_m, "observed") == NAN))
     check("C05.daily_prepare.usage_kept", implies(And(seen_m.mult > 0, Not(And(zero, electric))), And(cell_kind(seen_m, "observed") == ko, implies(ko == NUM, cell_val(seen_m, "observed") == vo))))
     cover("C05.cover.daily_prepare.zero", And(df.mult > 0, zero))
+
+
+CTR = repo("opendsm/eemeter/models/hourly_caltrack/data.py::HourlyReportingData")
+CTB = repo("opendsm/eemeter/models/hourly_caltrack/data.py::HourlyBaselineData")
+OPAQUE["opendsm/eemeter/models/hourly_caltrack/data.py::HourlyReportingData._correct_frequency"] = "correct_frequency_effect"
+OPAQUE["opendsm/eemeter/models/hourly_caltrack/data.py::HourlyBaselineData._check_data_sufficiency"] = None
+
+
+def correct_frequency_effect(self, df):
+    self.ghost_input = df
+    return df
+
+
+@harness("C05.caltrack_prepare", prop="C05", permissive=True, cases=[{"electric": e, "baseline": b} for e in [True, False] for b in [False, True]])
+def caltrack_prepare(electric, baseline):
+    """the CalTRACK hourly data classes: a zero electricity reading blanks that reading only; the row's temperature reaches the hourly roll-up untouched"""
+    df = row_frame(["observed", "temperature"], label="input", multiplicity="any")
+    ko = cell_kind(df, "observed")
+    vo = cell_val(df, "observed")
+    kt = cell_kind(df, "temperature")
+    vt = cell_val(df, "temperature")
+    if baseline:
+        obj = CTB(df, electric)
+    else:
+        obj = CTR(df, electric)
+    seen = obj.ghost_input
+    check("C05.caltrack_prepare.input_untouched", Not(df.mutated))
+    check("C05.caltrack_prepare.rows_kept", seen.mult == df.mult)
+    check("C05.caltrack_prepare.temperature_kept", And(cell_kind(seen, "temperature") == kt, implies(kt == NUM, cell_val(seen, "temperature") == vt)))
+    zero = And(ko == NUM, vo == 0)
+    if electric:
+        check("C05.caltrack_prepare.zero_blanked", implies(zero, cell_kind(seen, "observed") == NAN))
+    check("C05.caltrack_prepare.usage_kept", implies(Not(And(zero, electric)), And(cell_kind(seen, "observed") == ko, implies(ko == NUM, cell_val(seen, "observed") == vo))))
